@@ -763,7 +763,7 @@ def run_shard(tier, seed, shard, nshards, res):
         for i in range(10 if tier == 'quick' else 250):
             rng = common.rng_for(seed, 'c12s', shard, i)
             history(dc, sc, res, rng, 'c12 history seed=%d shard=%d i=%d' % (seed, shard, i))
-            if res.counters.get('violations_raw', 0) > 8:
+            if res.new_violations() > 8:
                 return
         sizes = [100, 101, 102, 103, 199, 200, 201, 202, 250, 301, 302, 5]
         for j in range(1 if tier == 'quick' else 6):
@@ -775,12 +775,12 @@ def run_shard(tier, seed, shard, nshards, res):
         for i in range(60 if tier == 'quick' else 1000):
             rng = common.rng_for(seed, 'c12p', shard, i)
             presence_schedule(dc, sc, res, rng, 'c12 presence seed=%d shard=%d i=%d' % (seed, shard, i), classify_presence)
-            if res.counters.get('violations_raw', 0) > 8:
+            if res.new_violations() > 8:
                 return
         for i in range(40 if tier == 'quick' else 600):
             rng = common.rng_for(seed, 'c12a', shard, i)
             atomicity_schedule(dc, sc, res, rng, 'c12 atomicity seed=%d shard=%d i=%d' % (seed, shard, i))
-            if res.counters.get('violations_raw', 0) > 8:
+            if res.new_violations() > 8:
                 return
         probe.reset()
         for i in range(1 if tier == 'quick' else 6):
